@@ -137,6 +137,17 @@ func runHistory(p program, hist []req, classify bool) string {
 	hits, evictions, reRequested := 0, 0, 0
 	evicted := map[string]bool{}
 	for i, q := range hist {
+		if q.method == "+USE" {
+			// a global middleware is added while the router is already serving (both routers get it): from now on it
+			// runs for every request - also for paths that were answered before
+			for _, r := range []*rux.Router{a, b} {
+				r.Use(mw("late" + q.path))
+			}
+			if classify {
+				ev.Class("history:global-Use-after-requests")
+			}
+			continue
+		}
 		if q.method == "+GET" {
 			// a route is added while the router is already serving (both routers get it): an exact static route
 			// for a path that may have been answered - and cached - by a dynamic route before
@@ -252,7 +263,13 @@ func prop(t *rapid.T) {
 		ev.Eval()
 	}
 	for _, q := range hist {
-		ev.Class("request:" + p.tb.Resolve(q.method, q.path).Kind.String())
+		if !strings.HasPrefix(q.method, "+") {
+			ev.Class("request:" + p.tb.Resolve(q.method, q.path).Kind.String())
+		}
+	}
+	if rapid.IntRange(0, 5).Draw(t, "lateUse") == 0 && len(hist) > 2 {
+		k := rapid.IntRange(1, len(hist)-1).Draw(t, "lateUseAt")
+		hist = append(append(append([]req{}, hist[:k]...), req{"+USE", fmt.Sprint(k)}, hist[k-1]), hist[k:]...)
 	}
 	// lifecycle: now and then a static route for one of the pool's paths is registered in the middle of the history
 	if rapid.IntRange(0, 3).Draw(t, "lateRoute") == 0 && len(hist) > 2 {
@@ -267,7 +284,7 @@ func prop(t *rapid.T) {
 			}
 		} else {
 			// preferably a path that was requested just before (its answer may sit in the cache), asked again right after
-			if prev := hist[k-1]; prev.method != "+GET" && rapid.Bool().Draw(t, "latePathJustRequested") {
+			if prev := hist[k-1]; !strings.HasPrefix(prev.method, "+") && rapid.Bool().Draw(t, "latePathJustRequested") {
 				lp = prev.path
 			}
 			if model.Stable(lp, o.Strict) && !strings.ContainsAny(lp, "{}[]") {
